@@ -62,7 +62,7 @@ def gen_one(rng, tier, scale=False):
     maxdepth = 6 if big else 5
     if scale:
         alphabet = [f'n{i}' for i in range(12)] + ['a.b', 'x y', 'ü', '0']
-        if rng.random() < 0.5:
+        if rng.random() < 0.7:
             # long chains: keys with 8-14 components over a tiny alphabet
             alphabet = ['p', 'q']
             deep = True
@@ -89,10 +89,10 @@ def gen_one(rng, tier, scale=False):
 
 
 def gen_cases(tier, seed):
-    for i in range(2 if tier == 'quick' else 32):
+    for i in range(6 if tier == 'quick' else 64):
         yield gen_one(random.Random(f'C11/scale/{seed}/{tier}/{i}'), tier,
                       scale=True)
-    n = 1500 if tier == 'quick' else 16 * 6000
+    n = 2500 if tier == 'quick' else 16 * 6000
     for i in range(n):
         yield gen_one(random.Random(f'C11/{seed}/{tier}/{i}'), tier)
 
